@@ -7,9 +7,11 @@ import H3.Model.Headers
     "parseable" means for `:scheme`, `:authority` and `:path`.
 
     What the text does not state is not demanded: no ordering of received pseudo-header fields,
-    nothing about duplicated pseudo-header fields or several `Host` fields, no `:scheme`/`:path`
-    presence, no request/response separation of the six defined names (reading R-12 in
-    DESIGN.md §9).  For trailers no pseudo-header field is defined (RFC 9114 §4.3: "Pseudo-header
+    nothing about duplicated pseudo-header fields, no `:scheme`/`:path` presence, no
+    request/response separation of the six defined names (reading R-12 in DESIGN.md §12, C12).
+    Several `Host` fields *are* spoken of — "identical when both are present", "a non-empty
+    authority" — see `AuthorityOk` (D-12e, reading R-12b).
+    For trailers no pseudo-header field is defined (RFC 9114 §4.3: "Pseudo-header
     fields MUST NOT appear in trailer sections"), so every trailer name must be a token. -/
 namespace H3.Spec.Headers
 open H3.Headers (Bytes FieldLine Http HeaderMap UriParts nMethod nScheme nAuthority nPath nStatus nProtocol nHost)
@@ -69,11 +71,23 @@ instance (H : Http) (f : FieldLine) : Decidable (FieldOk H f) := by unfold Field
 /-- the values of the fields called `n`, in order -/
 def valuesOf (n : Bytes) (fs : List FieldLine) : List Bytes := (fs.filter (fun f => f.1 = n)).map (·.2)
 
-/-- "a non-empty authority (from :authority or Host, identical when both are present)" -/
+/-- "a non-empty authority (from :authority or Host, identical when both are present)":
+
+    * there is a non-empty value among the `:authority` and `Host` values;
+    * *identical when both are present* (RFC 9114 §4.3.1 "If both fields are present, they MUST
+      contain the same value"): when there is an `:authority` field, **every** `Host` value — not
+      only the first — is the `:authority` value.  (Which of several different `:authority`
+      values counts is not fixed by the text — R-12, duplicated pseudo-header fields — so the
+      clause asks for *an* `:authority` value that all `Host` values equal; with one `:authority`
+      field, or several equal ones, that is "all `Host` values equal it".)
+    * reading R-12b, *a* (one) authority *from Host*: when the authority comes from `Host`, the
+      `Host` values are one value (RFC 9110 §7.2: a request with several differing `Host` field
+      lines has no authority one could name): every `Host` value is the first one.  Several
+      identical `Host` lines are not refused. -/
 def AuthorityOk (fs : List FieldLine) : Prop :=
   (∃ a ∈ valuesOf nAuthority fs ++ valuesOf nHost fs, a ≠ []) ∧
-  (∀ a ∈ valuesOf nAuthority fs, ∀ h ∈ valuesOf nHost fs,
-      (valuesOf nAuthority fs).length = 1 → (valuesOf nHost fs).length = 1 → a = h)
+  (valuesOf nAuthority fs ≠ [] → ∃ a ∈ valuesOf nAuthority fs, ∀ h ∈ valuesOf nHost fs, a = h) ∧
+  (∀ h ∈ valuesOf nHost fs, (valuesOf nHost fs).head? = some h)
 instance (fs : List FieldLine) : Decidable (AuthorityOk fs) := by unfold AuthorityOk; infer_instance
 
 def WellFormedRequest (H : Http) (fs : List FieldLine) : Prop :=
